@@ -730,6 +730,7 @@ func c19Locks(p *load.Program, run *report.Run) {
 			}
 		}
 	}
+	lockWakers = wakersIn(fns)
 	netField := func(v ssa.Value) string {
 		// address (or loaded slice/map) of a Network field
 		for {
@@ -783,6 +784,16 @@ func c19Locks(p *load.Program, run *report.Run) {
 						st.deferred = true
 					case op == "Unlock":
 						st.held = false
+					case op == "" && isChanWait(ins):
+						// waiting on a notify channel: in a re-checking loop, and without the mutex (a waker that
+						// takes the mutex before it posts would never get it)
+						inLoop := blockInCycle(b)
+						if st.held || !inLoop {
+							run.Violate("lock-discipline", fmt.Sprintf("p2p.%s/Wait", shortFn(f)), p.Rel(ins.Pos()), fmt.Sprintf("channel wait with lock held=%v, inside a re-checking loop=%v", st.held, inLoop), nil)
+						} else {
+							run.OK("lock-discipline", fmt.Sprintf("p2p.%s/Wait", shortFn(f)), p.Rel(ins.Pos()), "channel wait in a re-checking loop, mutex released")
+						}
+						run.Count("cond-waits", 1)
 					case op == "Wait":
 						inLoop := blockInCycle(b)
 						if !st.held || !inLoop {
@@ -810,11 +821,11 @@ func c19Locks(p *load.Program, run *report.Run) {
 							}
 							if fld == "need" {
 								if bo, ok := ins.(*ssa.Store).Val.(*ssa.BinOp); ok && bo.Op == token.SUB && netField(bo.X) == "need" {
-									// decrement: Broadcast before the lock is released
-									okB := mustPassBefore(b, i+1, func(x ssa.Instruction) bool { o, _ := mutexCall(x); return o == "Broadcast" },
-										func(x ssa.Instruction) bool { o, d := mutexCall(x); return o == "Unlock" && !d })
+									// decrement: the waiters are woken before the function returns
+									okB := mustPassBefore(b, i+1, func(x ssa.Instruction) bool { return isWakeInstr(x, lockWakers) },
+										func(x ssa.Instruction) bool { return false })
 									if okB {
-										run.OK("lock-discipline", k+"/broadcast", p.Rel(ins.Pos()), "decrement followed by Broadcast under the same lock")
+										run.OK("lock-discipline", k+"/broadcast", p.Rel(ins.Pos()), "decrement followed by a wake-up on every path")
 									} else {
 										run.Violate("lock-discipline", k+"/broadcast", p.Rel(ins.Pos()), "waiters are not woken after need is decremented", nil)
 									}
@@ -849,7 +860,7 @@ func c19Locks(p *load.Program, run *report.Run) {
 	}
 	run.Floor("lock-sites", 8)
 	run.Floor("protected-writes", 6)
-	run.Floor("cond-waits", 2)
+	run.Floor("cond-waits", 1)
 }
 
 // closureStart: a closure created and only passed to a call while the lock is held starts with it held (sort.Slice comparator).
@@ -924,3 +935,20 @@ func mustPassBefore(b *ssa.BasicBlock, from int, want, stop func(ssa.Instruction
 func shortFn(f *ssa.Function) string {
 	return strings.NewReplacer("(*"+load.Module+"/p2p.", "", ")", "", load.Module+"/p2p.", "").Replace(f.String())
 }
+
+// isChanWait: a receive from a channel kept in a field of the network.
+func isChanWait(ins ssa.Instruction) bool {
+	switch t := ins.(type) {
+	case *ssa.UnOp:
+		return t.Op == token.ARROW && strings.HasPrefix(signalKey(t.X), "p2p.Network.")
+	case *ssa.Select:
+		for _, st := range t.States {
+			if st.Dir == types.RecvOnly && strings.HasPrefix(signalKey(st.Chan), "p2p.Network.") {
+				return true
+			}
+		}
+	}
+	return false
+}
+
+var lockWakers map[*ssa.Function]bool
